@@ -17,7 +17,8 @@ RULE = ('generated files in a scratch directory (1..4 trajectories of different 
         '(n states, chunk size) with n <= 40 (exhaustive) against the model split_array. Non-trivial: a '
         'limits file with >= 2 trajectories is present.'
         ' Added classes: one- and two-frame multi-column files, a limits file rewritten in place with another partition of the same frames (loaded before), a trajectory exactly tcor frames long and constant, labels congruent modulo 2^16 in compare-discretization.'
-        ' Later: equal-length trajectory sets, a trajectory of > 2^15 frames in the limits file, widths 1.125 / 1.625 / 2.125 / 3.125, negative labels in the similarity command.')
+        ' Later: equal-length trajectory sets, a trajectory of > 2^15 frames in the limits file, widths 1.125 / 1.625 / 2.125 / 3.125, negative labels in the similarity command.'
+        ' Fifth/sixth batch: equal trajectory lengths that are not neighbours.')
 TRUSTED = ['click, the file system and the figure code are outside the model']
 ASSUMPTIONS = []
 BATCH = 30
